@@ -243,6 +243,77 @@ fn main() {
         drop(rx_b);
     }
 
+    // F-C14-2: a sink task parked because the slot it needs is PINNED by a consumer that is mid-clone must be
+    // woken when that consumer unpins -- also when the consumer loses its item to a sibling and its poll
+    // ends in NotReady (no value received, but the obstacle is gone).  Public API only; the payload's Clone
+    // is held open by the test.
+    {
+        use futures::executor::{self, Notify};
+        use futures::{Async, AsyncSink};
+        use std::sync::atomic::{AtomicBool, AtomicUsize, Ordering::SeqCst};
+        use std::sync::Arc;
+        struct Wakeups(AtomicUsize);
+        impl Notify for Wakeups {
+            fn notify(&self, _id: usize) {
+                self.0.fetch_add(1, SeqCst);
+            }
+        }
+        struct Gate {
+            armed: AtomicBool,
+            entered: AtomicBool,
+            release: AtomicBool,
+        }
+        struct Payload {
+            v: usize,
+            gate: Arc<Gate>,
+        }
+        impl Clone for Payload {
+            fn clone(&self) -> Payload {
+                if self.gate.armed.swap(false, SeqCst) {
+                    self.gate.entered.store(true, SeqCst);
+                    while !self.gate.release.load(SeqCst) {
+                        std::thread::yield_now();
+                    }
+                }
+                Payload { v: self.v, gate: self.gate.clone() }
+            }
+        }
+        let gate = Arc::new(Gate { armed: AtomicBool::new(false), entered: AtomicBool::new(false), release: AtomicBool::new(false) });
+        let mk = |v: usize| Payload { v, gate: gate.clone() };
+        let (tx, rx_a) = broadcast_fut_queue_with::<Payload>(2, 0, 0);
+        let rx_b = rx_a.clone();
+        for i in 0..2 {
+            assert!(tx.try_send(mk(i)).is_ok());
+        }
+        gate.armed.store(true, SeqCst);
+        let a_wake = Arc::new(Wakeups(AtomicUsize::new(0)));
+        let a_wake2 = a_wake.clone();
+        let a = std::thread::spawn(move || {
+            // consumer A polls its stream inside a task; the clone of value 0 is held open (slot 0 pinned)
+            let mut task = executor::spawn(rx_a);
+            let r = task.poll_stream_notify(&a_wake2, 1);
+            (matches!(r, Ok(Async::NotReady)), task)
+        });
+        while !gate.entered.load(SeqCst) {
+            std::thread::yield_now();
+        }
+        for i in 0..2 {
+            match rx_b.try_recv() {
+                Ok(p) => assert_eq!(p.v, i),
+                Err(e) => panic!("consumer B could not take value {}: {:?}", i, e),
+            }
+        }
+        let wakeups = Arc::new(Wakeups(AtomicUsize::new(0)));
+        let mut sink_task = executor::spawn(tx);
+        let parked = matches!(sink_task.start_send_notify(mk(2), &wakeups, 0), Ok(AsyncSink::NotReady(_)));
+        gate.release.store(true, SeqCst);
+        let (a_not_ready, _task) = a.join().unwrap();
+        let seen = wakeups.0.load(SeqCst);
+        let now_ok = matches!(sink_task.start_send_notify(mk(2), &wakeups, 0), Ok(AsyncSink::Ready));
+        report(!(parked && now_ok) || seen >= 1, "F-C14-2", format!("sink parked on a pinned slot: {}; pinning consumer's poll ended NotReady: {}; the send can go through now: {}; wake-ups the parked sink task got: {}", parked, a_not_ready, now_ok, seen));
+        drop(rx_b);
+    }
+
     // F-C10-1: add_stream on a SHARED parent stream: the parent's position is read first and the new
     // stream list is published later; in between a sibling consumer of the parent and the producer can
     // move on by more than the ring size.  Real threads; thread A is suspended just before the
